@@ -470,7 +470,10 @@ def check(item, case, rec):
         pl = fem.PointLoad(fc, points=pts, values=rng.uniform(-1, 1, (len(pts), dim)))
         mpc = fem.MultiPointConstraint(fc, points=rng.choice(np.arange(1, len(X)), size=2, replace=False), centerpoint=0, multiplier=case["mult"])
         bf = fem.SolidBodyForce(fc, values=rng.uniform(-1, 1, dim).tolist(), scale=0.5)
-        body2 = fem.SolidBody(um, fc, multiplier=0.5 + case["mult"] / 20)  # an item whose matrix is scaled by its multiplier
+        # an item whose vector and matrix are scaled by its multiplier; 0.0 = a switched-off body (edge of the documented domain)
+        m2 = 0.0 if case["useed"] % 5 == 0 else 0.5 + case["mult"] / 20
+        body2 = fem.SolidBody(um, fc, multiplier=m2)
+        rec.label("item-multiplier=0" if m2 == 0.0 else "item-multiplier")
         items = [body, body2, pl, mpc, bf][: 2 + case["useed"] % 4]
         symmetric = True
     else:
